@@ -419,6 +419,126 @@ def Mdl.psd (m : Mdl α) (flt : Filt α) (f fc dc : α) (pars : List α) : Excep
 
 end filters
 
+section deepen
+variable {α : Type} [RealLike α]
+open RealLike
+
+/-! ## Deepening round D — the objective of `_fit_power_spectra` -/
+
+/-- `chi_squared = np.sum(((1 / model(f, *p) - 1 / powers) / sigma) ** 2)` with
+    `sigma = (1.0 / powers) / math.sqrt(num_points_per_block)`; this is also the sum of squares
+    `curve_fit` minimises (`ydata = 1/powers`, `f = 1/model`, `sigma`, `absolute_sigma=True`).
+    `psd` is the spectrum model at the candidate parameters. -/
+def chi2 (psd : α → α) (n : α) : List α → List α → α
+  | f :: fs, p :: ps =>
+    let sigma := (1.0 / p) / sqrt n
+    let r := (1.0 / psd f - 1.0 / p) / sigma
+    r * r + chi2 psd n fs ps
+  | _, _ => 0.0
+
+/-- Lorentzian × diode filter: the spectrum model of a non-hydrodynamic model with a free diode -/
+def lorentzDiodePsd (f fc dc fd al : α) : α := lorentzianPsd f fc dc * gDiode f fd al
+
+/-! ## Deepening round D — `estimate_driving_input_parameters` after the FFT -/
+
+/-- the parabola through three points in Newton form: what `np.polyfit(x, y, 2)` returns for three
+    points (`p[0]·x² + p[1]·x + p[2]`; the least-squares problem is an exact interpolation) -/
+def parabola3 (x0 x1 x2 y0 y1 y2 : α) : α × α × α :=
+  let d01 := (y1 - y0) / (x1 - x0)
+  let d12 := (y2 - y1) / (x2 - x1)
+  let p0 := (d12 - d01) / (x2 - x0)
+  let p1 := d01 - p0 * (x0 + x1)
+  let p2 := y0 - p1 * x0 - p0 * (x0 * x0)
+  (p0, p1, p2)
+
+/-- `np.argmax`: index of the first maximum (`k` = index of the head, `(bi, bv)` best so far) -/
+def argmaxGo : List α → Nat → Nat → α → Nat
+  | [], _, bi, _ => bi
+  | x :: t, k, bi, bv => if lt bv x then argmaxGo t (k + 1) k x else argmaxGo t (k + 1) bi bv
+
+def argmax : List α → Nat
+  | [] => 0
+  | x :: t => argmaxGo t 1 0 x
+
+/-- `np.logical_and(frequency > guess - search, frequency < guess + search)` -/
+def searchMask (freqs : List α) (guess search : α) : List Bool :=
+  freqs.map fun f => lt (guess - search) f && lt f (guess + search)
+
+/-- `arr[mask]` -/
+def maskSelect {β : Type} : List β → List Bool → List β
+  | x :: xs, true :: ms => x :: maskSelect xs ms
+  | _ :: xs, false :: ms => maskSelect xs ms
+  | _, _ => []
+
+/-- `np.where(mask)[0][0]` -/
+def firstTrue : List Bool → Option Nat
+  | [] => none
+  | true :: _ => some 0
+  | false :: t => (firstTrue t).map (· + 1)
+
+inductive DriveErr where
+  | index      -- IndexError (empty search range / fit range beyond the spectrum)
+  | runtime    -- RuntimeError (no peak / peak outside the search range)
+  | wrap       -- peak bin 0: `fit_range` starts at −1 (wrap-around), outside the model
+deriving Repr, DecidableEq
+
+def DriveErr.name : DriveErr → String
+  | .index => "IndexError"
+  | .runtime => "RuntimeError"
+  | .wrap => "unmodelled-wraparound"
+
+structure DriveEst (α : Type) where
+  maxIdx : Nat
+  p0 : α
+  p1 : α
+  p2 : α
+  freq : α
+  amp : α
+  ampStd : α
+
+/-- `estimate_driving_input_parameters` after the peak bin `m` is known: three-point fit of the
+    log-magnitudes `log a_i` at the frequencies `x_i` (bins `m-1, m, m+1`), the two `RuntimeError`
+    branches, vertex, Gaussian amplitude and the noise estimate.
+    `delta = 2/sample_rate`, `npts = len(data)`, `totalPower = np.var(data)`,
+    `sumW`, `sumW2` the sums of the window and of its square. -/
+def drivePost (m : Nat) (x0 x1 x2 a0 a1 a2 guess search delta npts totalPower sumW sumW2 : α) :
+    Except DriveErr (DriveEst α) :=
+  let p := parabola3 x0 x1 x2 (log a0) (log a1) (log a2)
+  let p0 := p.1
+  let p1 := p.2.1
+  let p2 := p.2.2
+  if le 0.0 p0 then .error .runtime
+  else
+    let freq := -p1 / (2.0 * p0)
+    if lt freq (guess - search) || lt (guess + search) freq then .error .runtime
+    else
+      let amp := exp (p2 - 0.25 * (p1 * p1) / p0 + 0.5 * log (-pi / p0)) * delta
+      let enbw := npts * sumW2 / (sumW * sumW)
+      let noiseStd := sqrt (abs (totalPower - amp * amp / 2.0))
+      .ok { maxIdx := m, p0, p1, p2, freq, amp, ampStd := enbw * noiseStd / sqrt npts }
+
+/-- the peak bin: `np.where(search_range)[0][0] + np.argmax(np.abs(windowed_fft[search_range]))` -/
+def peakBin (freqs mags : List α) (guess search : α) : Option Nat :=
+  let mask := searchMask freqs guess search
+  (firstTrue mask).map fun first => first + argmax (maskSelect mags mask)
+
+/-- `estimate_driving_input_parameters` (`n_fit = 1`) from the magnitudes `|rfft(window·(x − mean))|`
+    on the frequency axis `freqs` -/
+def estimateDrive (freqs mags : List α) (guess search delta npts totalPower sumW sumW2 : α) :
+    Except DriveErr (DriveEst α) :=
+  match peakBin freqs mags guess search with
+  | none => .error .index
+  | some m =>
+    -- fit_range = arange(m - 1, m + 2); for m = 0 NumPy's negative index wraps around: not modelled
+    if m = 0 then .error .wrap
+    else
+      match freqs[m - 1]?, freqs[m]?, freqs[m + 1]?, mags[m - 1]?, mags[m]?, mags[m + 1]? with
+      | some x0, some x1, some x2, some a0, some a1, some a2 =>
+        drivePost m x0 x1 x2 a0 a1 a2 guess search delta npts totalPower sumW sumW2
+      | _, _, _, _, _, _ => .error .index
+
+end deepen
+
 /-! ## Line protocol -/
 
 def optFloat? (s : String) : Option (Option Float) :=
@@ -580,6 +700,40 @@ def handle : List String → Option String
   | ["c11.bias2", n, dc, edc] => do
     let n ← nat? n; let dc ← float? dc; let edc ← float? edc
     some (showFloat (biasCorrect (Float.ofNat n) dc) ++ " " ++ showFloat (biasCorrect (Float.ofNat n) edc))
+  | "c11.chi2" :: rest => do
+    -- the objective of `_fit_power_spectra` at given parameters, and `chi_squared_per_deg`
+    let (o, drag, rest) ← parseOpts? rest
+    let (flt, rest) ← parseFilt? rest
+    match rest with
+    | [fs, ps, n, fc, dc, pars] =>
+      let fs ← floatList? fs; let ps ← floatList? ps; let n ← nat? n
+      let fc ← float? fc; let dc ← float? dc; let pars ← floatList? pars
+      if fs.length ≠ ps.length then none
+      else
+      match construct o drag with
+      | .error e => some e.name
+      | .ok m =>
+        match flt.validate with
+        | some e => some e.name
+        | none =>
+          match m.psd flt (fs.headD 1.0) fc dc pars with
+          | .error e => some e.name
+          | .ok _ =>
+            let psd := fun f => match m.psd flt f fc dc pars with | .ok v => v | .error _ => 0.0 / 0.0
+            let c := chi2 psd (Float.ofNat n) fs ps
+            let dof := Float.ofNat fs.length - Float.ofNat (2 + pars.length)
+            some ("ok " ++ showFloatList [c, c / dof])
+    | _ => none
+  | ["c11.drive", freqs, mags, guess, search, delta, npts, tp, sw, sw2] => do
+    let freqs ← floatList? freqs; let mags ← floatList? mags
+    let guess ← float? guess; let search ← float? search; let delta ← float? delta
+    let npts ← float? npts; let tp ← float? tp; let sw ← float? sw; let sw2 ← float? sw2
+    if freqs.length ≠ mags.length then none
+    else
+    match estimateDrive freqs mags guess search delta npts tp sw sw2 with
+    | .error e => some e.name
+    | .ok r => some (s!"ok {r.maxIdx} " ++ showFloatList [r.freq, r.amp, r.ampStd] ++ " " ++
+        showFloatList [r.p0, r.p1, r.p2])
   | _ => none
 
 end Verif.C11
